@@ -180,8 +180,11 @@ def rule_worklist(ctx):
           and call_name(n) == 'add_book']
     cc = [n for n in ast.walk(lp) if isinstance(n, ast.Call)
           and call_name(n) == 'compile_cell']
-    if ab and cc and len(cc[0].args) >= 3:
-        refarg = cc[0].args[2]
+    refarg = None
+    if cc:
+        refarg = cc[0].args[2] if len(cc[0].args) >= 3 else kwarg(
+            cc[0], 'references')
+    if ab and cc and refarg is not None:
         ok = None
         if norm_src(refarg) == 'self.references':
             ok = True
